@@ -71,6 +71,8 @@ def _ring(ck, repo, nf):
     where = loc(mi, fn)
     kwarg = fn.args.kwarg.arg if fn.args.kwarg else None
     ck.need(kwarg is not None, f"{site}: the transition is not passed as keyword fields (unrecognised idiom)")
+    if not adv or not lens:
+        raise AnalysisError(f"{site}: the ring state (insert_idx / current_len) is not written by direct assignments in add_sample (unrecognised form)")
     ck.ob("R1-ring-law", site, "single-advance", len(adv) == 1, f"{len(adv)} assignment(s) to insert_idx", "" if len(adv) == 1 else "the write position must advance exactly once per addition", where)
     ck.ob("R1-ring-law", site, "single-length-update", len(lens) == 1, f"{len(lens)} assignment(s) to current_len", "" if len(lens) == 1 else "the length must be updated exactly once per addition", where)
     # stores through an alias of the storage arrays (positional pairing) are looked for explicitly
